@@ -27,6 +27,11 @@ def raises(ir, name, exact=True, fold=True):
     return out
 
 
+def fold(ir, a):
+    """Public name of the folding used by raises()."""
+    return _fold(ir, a)
+
+
 def _fold(ir, a):
     from .ir import _known_one_bit, _is_bool
     r = a.rhs
@@ -36,11 +41,15 @@ def _fold(ir, a):
         return a
     if not (_known_one_bit(r) or (r.op in ('sig', '&', '|', '~') and _is_bool(r))):
         return a
+    cached = getattr(a, '_folded', None)
+    if cached is not None:
+        return cached                          # one folded object per assignment: identity comparisons keep working
     import copy
     b = copy.copy(a)
     b.guard = tuple(a.guard) + tuple(literals(r, True))
     b.rhs = E('const', val=1, w=1)
     b.unfolded = a
+    a._folded = b
     return b
 
 
@@ -305,3 +314,100 @@ def bits_drivers(ir, name, lo, hi):
         else:
             out.append((a, None))
     return out
+
+
+def merged_drivers(ir, name):
+    """Drivers of `name` with slice-wise assignments that together cover the whole signal under one guard (same domain,
+    state and guard literals) merged into one pseudo assignment whose right-hand side is the Cat() of the parts -- the form
+    `x.eq(Cat(a, b))` has when written in one statement.  Whole-signal assignments are returned as they are; slice
+    assignments that do not complete a cover are returned unmerged."""
+    import copy
+    from .hdl import slice_of
+    si = ir.signals.get(name)
+    w = getattr(si, 'w', None)
+    ds = ir.drivers(name, exact=True)
+    out, groups = [], {}
+    for a in ds:
+        l = a.lhs
+        if isinstance(w, int) and l.op == 'slice' and l.args[0].op == 'sig' and isinstance(l.args[1], int) and isinstance(l.args[2], int) \
+                and isinstance(a.rhs, E):
+            key = (a.domain, a.state, tuple(sorted(x.canon() for x in a.guard)))
+            groups.setdefault(key, []).append(a)
+        else:
+            out.append(a)
+    for key, grp in groups.items():
+        grp.sort(key=lambda a: a.lhs.args[1])
+        pos, ok = 0, True
+        for a in grp:
+            if a.lhs.args[1] != pos:
+                ok = False
+                break
+            pos = a.lhs.args[2]
+        if not ok or pos != w:
+            out.extend(grp)
+            continue
+        parts = []
+        for a in grp:
+            pw = a.lhs.args[2] - a.lhs.args[1]
+            r = a.rhs
+            if r.w is None or r.w > pw:
+                r = slice_of(r, 0, pw)
+            elif r.w < pw:
+                ok = False
+                break
+            parts.append(r)
+        if not ok:
+            out.extend(grp)
+            continue
+        b = copy.copy(grp[0])
+        b.lhs = grp[0].lhs.args[0]
+        # upper parts that are the constant 0 are what zero-extension gives anyway: Cat(x, 0) written to the whole
+        # signal is `sig.eq(x)` for a narrower unsigned x
+        keep = list(parts)
+        while len(keep) > 1 and is_zero(keep[-1]):
+            keep.pop()
+        b.rhs = keep[0] if len(keep) == 1 else E('cat', parts, w=w)
+        b.merged_from = grp
+        out.append(b)
+    out.sort(key=lambda a: a.order)
+    return out
+
+
+def split_parts(a):
+    """[(target text, expression)] of an assignment, with `x.eq(Cat(p, q, ...))` (whole signal, parts of known width)
+    given as its parts `x[0:wp] <- p`, `x[wp:wp+wq] <- q` ... -- the form it has when written slice by slice."""
+    l, r = a.lhs, a.rhs
+    if isinstance(r, E) and r.op == 'cat' and isinstance(l, E) and l.op == 'sig' and isinstance(getattr(l.args[0], 'w', None), int) \
+            and all(isinstance(x, E) for x in r.args):
+        total = l.args[0].w
+        ws = [x.w if isinstance(x.w, int) else None for x in r.args]
+        if ws.count(None) == 1 and r.args[ws.index(None)].op == 'sig':
+            # one port of undeclared width (a field of an interface handed in): it fills what is left -- the same
+            # assumption the slice-wise spelling `x[8:16].eq(port)` makes
+            rest = total - sum(w_ for w_ in ws if w_ is not None)
+            if rest > 0:
+                ws[ws.index(None)] = rest
+        if None not in ws and sum(ws) == total:
+            out, off = [], 0
+            for x, w_ in zip(r.args, ws):
+                out.append(('%s[%d:%d]' % (l.canon(), off, off + w_), x))
+                off += w_
+            return out
+    return [(l.canon(), r)]
+
+
+def flag_arms(ir, a):
+    """An assignment to a one-bit flag as a sequence of constant assignments with the same last-wins meaning:
+    `flag.eq(cond)` under G is `flag.eq(0)` under G followed by `flag.eq(1)` under G & cond.  Constant assignments (and
+    anything that is not a flag assignment) are returned as they are."""
+    f = _fold(ir, a)
+    if f is a:
+        return [a]
+    z = getattr(a, '_zero_arm', None)
+    if z is None:
+        import copy
+        z = copy.copy(a)
+        z.rhs = E('const', val=0, w=1)
+        z.unfolded = a
+        a._zero_arm = z
+    return [z, f]
